@@ -125,7 +125,10 @@ def c04_extra_jobs(seed=0, tier="quick"):
     """debug / start order / transport variations (quick: on a third of the catalogue)."""
     jobs = []
     names = list(scenarios.CATALOGUE)
-    sel = [n for i, n in enumerate(names) if tier == "thorough" or i % 3 == seed % 3]
+    def special(n):
+        sc = scenarios.CATALOGUE[n]
+        return bool(sc.get("groups")) or any(c.get("async") for c in sc["conns"])
+    sel = [n for i, n in enumerate(names) if tier == "thorough" or i % 3 == seed % 3 or special(n)]
     for name in sel:
         scen = scenarios.CATALOGUE[name]
         sids = [s["sid"] for s in scen["sims"]]
@@ -269,6 +272,20 @@ def _check_c04(jobs, results, rep, tot):
                     errviews.append((vj, job, ex))
         tot["c04_scenarios"] += 1
         tot["c04_views"] += len(views)
+        # the run outcome is part of what is observed
+        kinds = collections.OrderedDict()
+        for job, r in lst:
+            for k in r["outcomes"]:
+                kk = ":".join(k.split(":")[:2])
+                kinds.setdefault(kk, job)
+        if len(kinds) > 1:
+            (k0, j0), (k1, j1) = list(kinds.items())[:2]
+            rep.report(
+                dict(prop="C04", kind="outcome-differs", cls=None,
+                     msg=f"{name}: run() ends with {k0} under [{_cfgs(j0['cfg'])}] but with {k1} "
+                         f"under [{_cfgs(j1['cfg'])}]"),
+                dict(kind="schedule-pair", scenario=j0["scen"], name=name,
+                     a=dict(cfg=j0["cfg"], choices=[]), b=dict(cfg=j1["cfg"], choices=[])))
         if len(views) > 1:
             items = list(views.items())
             # reference view: one whose executions had no data-flow deviation at all
@@ -278,16 +295,16 @@ def _check_c04(jobs, results, rep, tot):
                 d = _first_diff(json.loads(v0), json.loads(v1))
                 # a view that deviates from a clean one only by inputs that the C03 monitor
                 # classified (root cause of a recorded finding) inherits that classifier
-                cls = None
-                if not e0.get("c03") and e1.get("c03") and "None" not in e1["c03"] \
-                        and len(e1["c03"]) == 1:
-                    cls = e1["c03"][0]
-                rep.report(
-                    dict(prop="C04", kind="view-differs", cls=cls, sim=d[0] if d else None,
-                         msg=f"{name}: {d} between [{_cfgs(j0['cfg'])}] and [{_cfgs(j1['cfg'])}]"),
-                    dict(kind="schedule-pair", scenario=j0["scen"], name=name,
-                         a=dict(cfg=j0["cfg"], choices=e0["choices"]),
-                         b=dict(cfg=j1["cfg"], choices=e1["choices"])))
+                classes = [None]
+                if not e0.get("c03") and e1.get("c03") and "None" not in e1["c03"]:
+                    classes = list(e1["c03"])     # every deviation of that view is classified
+                for cls in classes:
+                    rep.report(
+                        dict(prop="C04", kind="view-differs", cls=cls, sim=d[0] if d else None,
+                             msg=f"{name}: {d} between [{_cfgs(j0['cfg'])}] and [{_cfgs(j1['cfg'])}]"),
+                        dict(kind="schedule-pair", scenario=j0["scen"], name=name,
+                             a=dict(cfg=j0["cfg"], choices=e0["choices"]),
+                             b=dict(cfg=j1["cfg"], choices=e1["choices"])))
         # runs that ended in an (expected) error: sequences must be prefix-compatible
         if views and errviews:
             full = json.loads(next(iter(views)))
